@@ -49,7 +49,10 @@ Next ==
                 IN  IF Unknown(r)
                     THEN /\ Verdict(l + 1, "unknown", <<>>)
                          /\ lost' = TRUE /\ UNCHANGED it
-                    ELSE LET d == ResDiff(r.res, ev.res) \o OutsDiff(r.out, ev.out) \o SnapDiff(r.I, ev.snap)
+                    ELSE LET cl == IF r.res.ok \/ ev.c.k \notin {"submit", "continue"} THEN [ok |-> FALSE, lines |-> <<>>]
+                                   ELSE CaretLines(r.I, r.res, IF ev.c.k = "submit" THEN ev.c.text ELSE <<>>)
+                             d == ResDiff(r.res, ev.res) \o OutsDiff(r.out, ev.out) \o SnapDiff(r.I, ev.snap)
+                                  \o (IF cl.ok /\ ~r.res.ok /\ ~ev.res.ok /\ (ev.c.k = "submit" \/ r.res.hl) /\ cl.lines # ev.caret THEN <<"caret">> ELSE <<>>)
                                   \o (IF ev.edit.some /\ ~(IF ev.edit.toks = <<>> THEN ev.edit.k \notin DOMAIN r.I.prog
                                                             ELSE ev.edit.k \in DOMAIN r.I.prog /\ ToksAgree(r.I.prog[ev.edit.k], ev.edit.toks))
                                       THEN <<"prog">> ELSE <<>>)
